@@ -266,11 +266,11 @@ def r2_baseline():
     """Exit codes of the round-2 changes against the PREVIOUS version of the checks."""
     out = {}
     for f in ("r2_before.log", "r2_before_b2.log", "r3_before.log", "r3_before_b2.log",
-              "r4_before.log", "r5_before.log", "r6_before.log", "r7_first_contact.log"):
+              "r4_before.log", "r5_before.log", "r6_before.log", "r7_first_contact.log", "r8_first_contact.log"):
         p = os.path.join(VERIF_DIR, "seeded", f)
         if os.path.exists(p):
             for line in open(p):
-                m = re.match(r"(C\d+-[234567][AB]) (C\d+) exit=(\d+)", line)
+                m = re.match(r"(C\d+-[2345678][AB]) (C\d+) exit=(\d+)", line)
                 if m:
                     out[m.group(1)] = int(m.group(3))
     return out
